@@ -457,6 +457,30 @@ fn gen_items(c: &mut Choices, no_key: bool) -> (Vec<Item>, usize) {
     });
     next_sn[w] += 1;
   }
+  // sometimes a long run of one kind of bad change (budgets, counters and buffers in the
+  // skipping code have thresholds at powers of two)
+  if c.chance(50) {
+    let kind = [Kind::UnknownHash, Kind::UnknownHash, Kind::Truncated, Kind::WrongType, Kind::UnknownRep, Kind::Empty, Kind::BadDisposeKey][c.pick(7)];
+    let len = [17usize, 18, 33, 40, 65, 100, 129, 257][c.pick(8)];
+    let pos = c.pick(items.len() + 1);
+    let w = c.pick(nwriters);
+    let run: Vec<Item> = (0..len)
+      .map(|k| Item {
+        w,
+        sn: 0,
+        kind,
+        id: if kind == Kind::UnknownHash { 900 + (k % 3) as u32 } else { (k % 3) as u32 },
+        v: k as u16,
+      })
+      .collect();
+    items.splice(pos..pos, run);
+    // renumber per writer in queue order
+    let mut next = vec![1i64; nwriters];
+    for it in items.iter_mut() {
+      it.sn = next[it.w];
+      next[it.w] += 1;
+    }
+  }
   (items, nwriters)
 }
 
